@@ -87,7 +87,6 @@ def worker(ctx):
             paths = __import__("vlib.emit", fromlist=["write_schema"]).write_schema(root, top)
             dstd = os.path.join(top, "std")
             sut_compiler.compile_schema(root, top, ["c", "py"], outdir=dstd, paths=paths)
-            res.case(True, offset, chunk)
             res.sample({"pad_bits": offset, "types": [t.text() for t in types[:6]] + ["..."], "example_message":
                         open(paths[root.basename]).read().split("message ")[1][:400]}, 2)
             # probe values
@@ -95,6 +94,7 @@ def worker(ctx):
             for m, t in pairs:
                 for name, v in probes.probe_values(m, t, full):
                     work.append((m, t, name, v))
+                    res.case(True, t.text(), offset, name)  # an evaluation = one probe (type, pad width, probed leaf/value)
                     for it in ref.leaves(m, v):
                         if it.path[0] in (2, 3, 4, 5, 6, 7, 8, 10):
                             res.observe("cells", f"{t.text()}@{it.offset % 8}:{probes.position_of(it.path)}")
